@@ -39,6 +39,9 @@ TRUSTED = ["Coq 8.16.1 kernel (coqc; coqchk in the thorough tier); vm_compute us
 ASSUMPTIONS = ["well-formed operands: strictly ascending non-negative integer coordinates, positive shape, "
                "non-empty active range, step > 0, strictly ascending split list, positive sizes (non-empty list), "
                "halos >= 0",
+               "default None is modelled by a sentinel default that never occurs as a payload (nothing but an empty fiber "
+               "is empty); build histories (read -> grow -> split, value representations of harness/ftutil) are not "
+               "part of the Coq case: every history ending in the same tree must give the same observation",
                "depth > 0 goes through updatePayloadsBelow (S4 and S29 fixed in HEAD): all-default sub-fibers at "
                "the split level are emptied and left unsplit; the oracle expects exactly that",
                "deepcopy of the operand is value-preserving (property C10)"]
@@ -139,6 +142,53 @@ def exhaustive_small():
     return cases
 
 
+def gen_none_default(rng, **kw):
+    """T1: default None ("no empty value") over a tree that stores zeros: the tree is generated with
+    explicit zeros (as for default 0) and the case's default is the sentinel"""
+    c = gen_case(rng, **kw)
+    nlev = len(c["shapes"])
+    shp = [rng.randint(2, 10) for _ in range(nlev)]
+    c["tree"] = U.gen_fiber(rng, nlev, shp, 0, p_zero=rng.choice([0.2, 0.4, 0.6]),
+                            p_emptysub=rng.choice([0.0, 0.0, 0.15]) if c["depth"] else None)
+    if c["tensor"]:
+        c["shapes"] = [x + rng.choice([0, 0, 2]) for x in shp]
+    elif c["shapes"][0] is not None:
+        c["shapes"][0] = shp[0] + rng.choice([0, 0, 2])
+    if c["active"] is not None:
+        a0 = rng.randint(0, shp[0])
+        c["active"] = [a0, rng.randint(a0 + 1, shp[0] + 2)]
+    if c["kind"] == "nonuniform":
+        c["arg"] = gen_arg(rng, "nonuniform", shp[c["depth"]])
+    c["d"] = C.NONE_D
+    return c
+
+
+READS = ["active", "iter", "shape", "max", "and", "touch"]
+
+
+def gen_history(rng):
+    """T3/T4: read -> grow -> split.  The fibers at the split level (estimated shape, no explicit
+    active range) are built from a prefix, queried read-only, grown, then split"""
+    kind = rng.choice(["uniform", "nonuniform", "equal", "unequal", "truediv", "floordiv"])
+    depth = 0 if kind in ("truediv", "floordiv") else rng.choice([0, 0, 1])
+    c = gen_case(rng, kind=kind, depth=depth, tensor=False, resplit=False)
+    nlev = len(c["shapes"])
+    shp = [rng.randint(3, 10) for _ in range(nlev)]
+    c["tree"] = U.gen_fiber(rng, nlev, shp, 0, p_absent=rng.choice([0.0, 0.2, 0.5]),
+                            p_emptysub=0.0 if depth else None)
+    if kind == "nonuniform":
+        c["arg"] = gen_arg(rng, "nonuniform", shp[depth])
+    c["active"] = None
+    c["shapes"] = [None] * nlev
+    if rng.random() < 0.15:
+        c["shapes"][0] = shp[0] + rng.choice([0, 2])
+    if rng.random() < 0.25:
+        c["d"] = C.NONE_D
+    c["hist"] = {"cut": rng.randint(0, 4), "reads": rng.sample(READS, rng.randint(1, 3)),
+                 "grow": rng.choice(["append", "append", "ref"])}
+    return c
+
+
 def streams(tier, rng):
     yield ("s18-witnesses", s18_witnesses(), False)
     n = 1500 if tier == "quick" else 20000
@@ -153,8 +203,16 @@ def streams(tier, rng):
             c["pre"] = 1
         halo.append(c)
     yield ("halo-depth0", halo, False)
+    k = 400 if tier == "quick" else 4000
+    yield ("none-default", [gen_none_default(rng) for _ in range(k)], False)
+    yield ("read-grow-split", [gen_history(rng) for _ in range(k)], False)
     if tier == "thorough":
-        yield ("exhaustive-0..4", exhaustive_small(), True)
+        ex = exhaustive_small()
+        yield ("exhaustive-0..4", ex, True)
+        # the same occupancy patterns under default None: the stored 0 is a non-empty element
+        sub = [dict(c, d=C.NONE_D) for c in ex
+               if c["active"] is None and (c["arg"] in (2, [1, 2], [0, 3]))]
+        yield ("exhaustive-0..4-default-None", sub, True)
 
 
 def nontrivial(case):
@@ -168,6 +226,8 @@ def describe(case):
     return {"kind": case["kind"], "depth": case["depth"], "tensor": case["tensor"],
             "halo": bool(case["pre"] or case["post"]), "rel": case["rel"],
             "explicit_active": case["active"] is not None, "resplit": case["resplit"] is not None,
+            "none_default": case["d"] == C.NONE_D, "history": case.get("hist") is not None,
+            "stored_zero": U.has_explicit_default(case["tree"], 0),
             "explicit_default": U.has_explicit_default(case["tree"], case["d"]),
             "empty_subfiber": U.has_empty_sub(case["tree"], case["d"])}
 
@@ -234,6 +294,16 @@ def shrinks(case):
         c = copy.deepcopy(case)
         c["rel"] = False
         yield c
+    if case.get("hist"):
+        c = copy.deepcopy(case)
+        h = c["hist"]
+        if len(h["reads"]) > 1:
+            h["reads"] = h["reads"][:-1]
+            yield c
+        c = copy.deepcopy(case)
+        if c["hist"]["grow"] != "append":
+            c["hist"]["grow"] = "append"
+            yield c
     for i, (co, s) in enumerate(t):
         if not isinstance(s, int):
             for j in range(len(s)):
